@@ -436,7 +436,7 @@ def extract_item(repo, item, log):
     with open("%s/%s" % (repo, path), encoding="utf-8") as fh:
         src = fh.read()
     loc = locate(src, item["path"])
-    name = item.get("name") or item["path"][-1]
+    name = item.get("name") or item["path"][-1].split(" ", 1)[1]
     item = dict(item, name=name)
     original = src[loc["sig_start"]:loc["end"]]
     line_start = src.count("\n", 0, loc["sig_start"]) + 1
